@@ -1,6 +1,7 @@
 package main
 
 import (
+	"bytes"
 	"context"
 	"fmt"
 	"strings"
@@ -182,6 +183,45 @@ func genC04(e *emitter, tier string, seed uint64) {
 			ml := append([]byte{}, locks[pos]...)
 			ml = append(ml, 0x61)
 			run("spent-script", cloneTx(st), pos, sats[pos], ml)
+		}
+	}
+	// library-made signatures whose DER integers sit on a padding boundary (R = 00 80.., R of 31 bytes, S of 31 bytes): the
+	// lock time is stepped until the deterministic signature has the shape; the interpreter must accept every one of them
+	for _, shp := range []func(rr, ss []byte) bool{
+		func(rr, ss []byte) bool { return len(rr) == 33 && rr[1] == 0x80 },
+		func(rr, ss []byte) bool { return len(rr) == 31 },
+		func(rr, ss []byte) bool { return len(ss) == 31 },
+		func(rr, ss []byte) bool { return len(rr) == 32 && rr[0] == 0x7f },
+	} {
+		k := genKey(r)
+		lock := p2pkhOf(k)
+		for _, ft := range []struct {
+			ht    sighash.Flag
+			flags int
+		}{{0x41, fForkID}, {0x01, 0}} {
+			var found *bt.Tx
+			for lt := uint32(0); lt < 100000 && found == nil; lt++ {
+				tx := &bt.Tx{Version: 1, LockTime: lt}
+				tx.Inputs = append(tx.Inputs, mkInput(bytes.Repeat([]byte{7}, 32), 0, nil, 0xffffffff, 1000, scr(lock)))
+				tx.Outputs = append(tx.Outputs, &bt.Output{Satoshis: 900, LockingScript: scr(lock)})
+				if err := tx.FillInput(context.Background(), &unlocker.Simple{PrivateKey: k.priv}, bt.UnlockerParams{InputIdx: 0, SigHashFlags: ft.ht}); err != nil {
+					break
+				}
+				u := []byte(*tx.Inputs[0].UnlockingScript)
+				sig := u[1 : 1+int(u[0])]
+				rl := int(sig[3])
+				if shp(sig[4:4+rl], sig[6+rl:len(sig)-1]) {
+					found = tx
+				}
+			}
+			if found == nil {
+				e.note("mut.der-boundary.not-found")
+				continue
+			}
+			for _, era := range []int{0, fAfterGenesis} {
+				res := e.run("C04.mut", fmt.Sprint(ft.flags|era), descTx(found), "0", "1000", hexE(lock), descTx(found), "0", "1000", hexE(lock))
+				e.note("mut.der-boundary." + strings.Fields(res)[0])
+			}
 		}
 	}
 	// the spent script carries a push at each push-opcode boundary (direct / PUSHDATA1 / PUSHDATA2 / PUSHDATA4): the script
